@@ -44,7 +44,7 @@ def run(ctx):
     # the same behaviours again (i) with every timestamp and watermark shifted by a large base - nanosecond-epoch magnitude, beyond
     # 2^53 - since the join depends on timestamp differences only, (ii) with other joins sharing the two streams registered in the
     # manager, kept or unregistered again before the first event
-    V = [{"base": 1 << 60, "others": "kept"}, {"base": 1700000000000000001, "others": "removed"}]
+    V = [{"base": 1 << 60, "others": "kept"}, {"base": 1700000000000000001, "others": "removed"}, {"base": 7, "others": "rereg"}]
     if q:
         c.graph_leg(ctx, M, "join", "Gen_StreamJoin.cfg", cfg, 300, 6, 4, "Sim_StreamJoin.cfg", 1000, 12, sim_cfgobj=simcfg, variants=V)
         c.graph_leg(ctx, M, "join", "Gen_StreamJoin_f.cfg", cfg, 300, 6, 4, variants=V[1:])
